@@ -114,8 +114,25 @@ func checkC03(c *Ctx) {
 			recCalls = append(recCalls, call)
 		}
 	}
-	if len(applyCalls) != 1 || len(effApply) != 1 {
-		c.Undecide("C03: Step is expected to contain exactly one State.Apply and one EffectsApply call (found %d, %d)", len(applyCalls), len(effApply))
+	if len(applyCalls) != 1 {
+		c.Undecide("C03: Step is expected to contain exactly one State.Apply call (found %d)", len(applyCalls))
+		return
+	}
+	if len(effApply) != 1 {
+		// the effects are not evaluated as a whole before being applied: report what evaluates instead
+		ap := applyCalls[0]
+		bad := "no evaluation of the effect list precedes the loop that applies effects"
+		for _, cs := range Calls(step) {
+			f := Callee(cs.Common())
+			isEval := f != nil && evs[f]
+			if mc, ok := lastArgClosure(cs); ok && evs[mc] {
+				isEval = true
+			}
+			if isEval && !InstrDominates(cs.Instr.(ssa.Instruction), ap) || (isEval && reachable(ap, cs.Instr.(ssa.Instruction))) {
+				bad = "effects are evaluated at " + c.Prog.Pos(cs.Pos()) + " while earlier effects of the same instruction have already been applied: a later effect sees the result of an earlier one instead of the pre-state"
+			}
+		}
+		c.Fail("C03.pre", ShortName(step)+"/apply-evaluated-effects", c.Prog.Pos(ap.Pos()), bad)
 		return
 	}
 	ap, ea := applyCalls[0], effApply[0]
@@ -445,6 +462,40 @@ func checkC03(c *Ctx) {
 		c.Oblige("C03.eval", ShortName(ev), c.Prog.FuncPos(ev), ok, "eval is not ConstFold(evalMemoryFully(evalRegsFully(ex, s), s)): memory addresses would be evaluated before their registers are substituted, or the result left unfolded")
 	}
 
+	// --- unchecked assertions to expr.Const
+	c.Rule("C03.const", "an unchecked type assertion to expr.Const in package emulator is applied only to a value that is a constant by construction: the result of ConstFold, of RegMap.Load (SetWidth of a stored constant is NewConst, C12.setwidth), or a field of an effect that Step has already evaluated; the result of a Memory.Load is an expression assembled from pieces and has to be folded first")
+	nAssert := 0
+	for _, fn := range c.Prog.FuncsIn(ModulePath + "/" + pkgEmul) {
+		if fn.Origin() != nil || fn.Blocks == nil {
+			continue
+		}
+		ord := 0
+		for _, b := range fn.Blocks {
+			for _, in := range b.Instrs {
+				ta, ok := in.(*ssa.TypeAssert)
+				if !ok || ta.CommaOk || !TypeNameIs(ta.AssertedType, "pkg/expr.Const") {
+					continue
+				}
+				nAssert++
+				ord++
+				k := fmt.Sprintf("%s/.(Const)#%d", ShortName(fn), ord)
+				x := Unwrap(ta.X)
+				why := ""
+				switch {
+				case matches(x, CallTo(pkgXform+".ConstFold", Any())):
+				case matches(x, ExtractN(0, CallTo("(*"+pkgState+".RegMap).Load", Any()))):
+				case fn.Name() == "recordOutput" && (matches(x, Method("Addr", Any())) || matches(x, Method("Value", Any()))):
+				case matches(x, ExtractN(0, Method("Load", Any()))):
+					why = "the result of a memory Load is asserted to be a constant without constant folding: a read that is assembled from more than one stored piece (two adjacent stores, a read inside a wider store, a read across the program image's end) is an unfolded expression and the assertion panics"
+				default:
+					why = "asserted value is not a constant by construction"
+				}
+				c.Oblige("C03.const", k, c.Prog.Pos(ta.Pos()), why == "", why)
+			}
+		}
+	}
+	c.RequireCount("C03.const unchecked assertions to expr.Const in package emulator", nAssert, 6)
+
 	// --- layering
 	if ru := anchor(c, "cmd/mltwist.runIU"); ru != nil {
 		found := false
@@ -505,6 +556,19 @@ func checkC03(c *Ctx) {
 		}
 		c.Oblige("C03.lay", ShortName(ru)+"/image-blocks", c.Prog.FuncPos(ru), nbOK, "the byte memory is not built from every block of the ELF memory image")
 	}
+}
+
+// lastArgClosure returns the function of a closure passed as the last argument.
+func lastArgClosure(cs CallSite) (*ssa.Function, bool) {
+	a := cs.Common().Args
+	if len(a) == 0 {
+		return nil, false
+	}
+	if mc, ok := Unwrap(a[len(a)-1]).(*ssa.MakeClosure); ok {
+		f, ok := mc.Fn.(*ssa.Function)
+		return f, ok
+	}
+	return nil, false
 }
 
 func extractOf(call *ssa.Call, idx int) ssa.Value {
@@ -710,14 +774,18 @@ func checkC04(c *Ctx) {
 			for _, g := range GuardsOf(b) {
 				if ex, isEx := g.Cond.(*ssa.Extract); isEx && ex.Index == 1 && g.Outcome {
 					if call, isCall := ex.Tuple.(*ssa.Call); isCall && call.Call.StaticCallee() != nil && call.Call.StaticCallee().Name() == "Load" && call.Block() == fn.Blocks[0] {
-						if matches(ret.Results[0], TypeAssertOf("pkg/expr.Const", ExtractN(0, func(v ssa.Value, _ *Bind) bool { return v == ssa.Value(call) }))) {
+						// the returned constant derives from the value found (asserted directly or folded first)
+						if DependsOn(ret.Results[0], func(v ssa.Value) bool {
+							e, ok := v.(*ssa.Extract)
+							return ok && e.Index == 0 && e.Tuple == ssa.Value(call)
+						}) {
 							hitOK = true
 						}
 					}
 				}
 			}
 		}
-		c.Oblige("C04.miss", ShortName(fn)+"/hit-returns-stored", c.Prog.FuncPos(fn), hitOK, "a hit does not return the stored value directly")
+		c.Oblige("C04.miss", ShortName(fn)+"/hit-returns-stored", c.Prog.FuncPos(fn), hitOK, "a hit does not return the value found in the state")
 	}
 
 	// --- set algebra
